@@ -60,8 +60,11 @@ ASSUMPTIONS = [
     "which rest on CoreVM being the interpreter (C09 translator + correspondence) and are re-checked on the real FlowStates by the run-time frame "
     "comparison around every top-level _advance_head_front call",
     "no-propagation is a THEOREM only for faulty LEAF instances (vm_leaf_error_never_propagates; tag faulty-instance:leaf) — for instances with child "
-    "flows or actions only the provenance clause of vm_error_contained is proved; raise sites outside every try block exist in the pinned tree "
-    "(three open findings) and are covered by the oracle 'nothing escapes / every observer reacts'",
+    "flows or actions only the provenance clause of vm_error_contained is proved; the three raise sites found outside every try block in phase 4 "
+    "(head advance, _handle_event_matching, send StartFlow without flow_id) are repaired (fixes/C10-*.diff) and CoreVM mirrors the repaired code: "
+    "vm_except_branch covers `head.position += 1`, vm_handle_match_error_contained the per-head work of _handle_event_matching, "
+    "startflow_without_flow_id_fails_sender the send; the remaining raise sites outside try blocks (look-ups of vanished instances, list.remove in "
+    "_abort_flow, _resolve_action_conflicts evaluating expressions) are covered by the oracle 'nothing escapes / every observer reacts'",
     "the sliding graph over-approximates: dynamic `send $ref.X()` of non-action references is treated as sliding",
     "programs in which an activated flow completes a full pass on internally generated events only (e.g. `await` of a flow that "
     "finishes immediately) are outside the hypothesis 'loops contain a waiting statement' and are not generated",
